@@ -89,6 +89,13 @@ def gen_skeleton(rng, max_dirs=6, max_files=18, depth=4, hostile=0.3,
         used = {n['p'].rsplit('/', 1)[-1] for n in nodes
                 if os.path.dirname(n['p']) == parent}
         nm = rand_name(rng, hostile, used)
+        sibs = [n['p'].rsplit('/', 1)[-1] for n in nodes
+                if n['t'] == 'd' and os.path.dirname(n['p']) == parent]
+        if sibs and rng.random() < 0.25:
+            # a sibling whose name is a string prefix (not a component prefix)
+            cand = rng.choice(sibs) + rng.choice(['-extra', '.bar', 'bar', ' x', '1'])
+            if cand not in used:
+                nm = cand
         p = nm if not parent else parent + '/' + nm
         nodes.append({'p': p, 't': 'd'})
         dirs.append(p)
